@@ -222,4 +222,4 @@ def check(case: dict) -> dict:
     return {'nontrivial': nontrivial, 'classes': classes}
 
 
-ENGINES = [Engine('schedules', cases, check, quick=100, thorough=3000, batch=50)]
+ENGINES = [Engine('schedules', cases, check, quick=300, thorough=4000, batch=100)]
